@@ -151,4 +151,11 @@ def ZoneValid (z : Zone) : Prop :=
   z.types ≠ [] ∧ SortedStrict z.transitions ∧ (∀ t ∈ z.transitions, t.idx < z.types.length)
     ∧ (∀ t ∈ z.types, t.off ≠ I32_MIN ∧ ∀ n, t.name = some n → NameOk n)
 
+/-- the footer bytes of a file as the reader slices it: everything after the second data block
+(empty for version 1 and for files whose blocks cannot be sliced) -/
+def footerOf (bytes : List Nat) : List Nat :=
+  match parseBlocks bytes with
+  | .ok (_, some f) => f
+  | _ => []
+
 end Chrono.Spec.Tz
